@@ -52,7 +52,9 @@ def replay(obligation, extra):
     tried = 0
     for name, kw in scenarios():
         for react_name, react in (('nothing', None), ('close at first message', lambda ws, ev, k, run: ws.close() if ev.name in ('text', 'ping') else None),
-                                  ('send at every event', lambda ws, ev, k, run: _try(ws))):
+                                  ('send at every event', lambda ws, ev, k, run: _try(ws)),
+                                  ('close at Connecting', lambda ws, ev, k, run: ws.close() if ev.name == 'connecting' else None),
+                                  ('close at Connected', lambda ws, ev, k, run: ws.close() if ev.name == 'connected' else None)):
             kw2 = dict(kw)
             kw2.setdefault('connect_kwargs', dict(ping_rate=0))
             if kw2.pop('clock', None):
